@@ -249,7 +249,7 @@ def shared(ctx):
     real insertions/removals, a zero count is *no entry*) and the confinement of tree writes to it (C20.R2) are necessary; so is order-independence of a batch (C03.R2)."""
     from rules.engine import core
     from rules.props import c20, c03
-    core.import_rules(ctx, [c20.r1_protocol, c20.r2_confinement], "X20")
+    core.import_rules(ctx, [c20.r1_protocol, c20.r2_confinement, c20.r4_activation], "X20")
     core.import_rules(ctx, [c03.r2_batch_commutativity], "X03")
 
 
